@@ -126,7 +126,7 @@ def run_calc(specdir, drv, tdir, seed, num, workers=4, timeout=900):
     Returns (trace path, number of distinct behaviours)."""
     md = tempfile.mkdtemp(prefix="tlcmeta.", dir=specdir)
     cmd = ["java", "-Xmx4g", "-Xss256m", "-XX:+UseParallelGC", "-XX:ParallelGCThreads=2", "-Djava.io.tmpdir=" + md, "-cp", JAVA_CP, "tlc2.TLC",
-           "-workers", str(workers), "-metadir", md, "-config", "Calc.cfg", "-simulate", "num=%d" % num, "-depth", "40",
+           "-workers", str(workers), "-metadir", md, "-config", "Calc.cfg", "-simulate", "num=%d" % num, "-depth", "60",
            "-seed", str(seed), "Calc.tla"]
     try:
         p = subprocess.run(cmd, cwd=specdir, capture_output=True, text=True, timeout=timeout)
